@@ -80,6 +80,7 @@ func (c *Ctx) c07Chunk(gs []*gast.Grammar, rng *rand.Rand) {
 		exit    int
 		stderr  string
 		witness *c07w
+		optExit int
 	}
 	infos := make([]*info, len(gs))
 	texts := make([]string, len(gs))
@@ -91,6 +92,12 @@ func (c *Ctx) c07Chunk(gs []*gast.Grammar, rng *rand.Rand) {
 		texts[i] = gast.Print(g, gast.PrintOpts{Pkg: "p", Plain: true})
 		res := c.W.Gen(texts[i])
 		inf.exit, inf.stderr = res.Exit, res.Stderr
+		inf.optExit = -1
+		if inf.static {
+			// the same grammar through the optimizer: its rewriting must not hide the cycle from the
+			// analysis that follows it (it may remove a cycle only by removing the rules that form it)
+			inf.optExit = c.W.Gen(texts[i], "-optimize-grammar").Exit
+		}
 		infos[i] = inf
 		c.Eval(1)
 		if len(g.Rules) >= 2 {
@@ -107,6 +114,23 @@ func (c *Ctx) c07Chunk(gs []*gast.Grammar, rng *rand.Rand) {
 	var accIdx []int
 	var acyclic []*gast.Grammar
 	defer func() { c.c07RunAcyclic(acyclic, rng) }()
+	var optAcc []*gast.Grammar
+	var optW []*c07w
+	defer func() { c.c07RunOptAccepted(optAcc, optW) }()
+	for i, g := range gs {
+		if infos[i].static && infos[i].optExit == 0 {
+			// only the first rule is an entrypoint of the optimized parser
+			ins := c07Inputs(g, rng)
+			for _, x := range ins {
+				m := ref.Run(g, x, ref.Opts{Entry: g.Rules[0].Name, DetectReentry: true, StepCap: 20000, MaxEvents: 1})
+				if m.Reentry != "" {
+					optAcc = append(optAcc, g)
+					optW = append(optW, &c07w{gi: i, in: x, entry: "", reentry: m.Reentry})
+					break
+				}
+			}
+		}
+	}
 	for i, g := range gs {
 		inf := infos[i]
 		rejectedLR := inf.exit == 5 && strings.Contains(inf.stderr, "left recursion")
@@ -195,6 +219,46 @@ func (c *Ctx) c07Chunk(gs []*gast.Grammar, rng *rand.Rand) {
 				c.CovAdd("plain_runs_dying_of_stack_overflow", 1)
 			}
 		}
+	}
+}
+
+// c07RunOptAccepted: grammars with a first-call cycle (and a dynamic witness from the first rule) that
+// pigeon accepts under -optimize-grammar without -support-left-recursion. The optimizer may have
+// removed the cycle legitimately (dead rules), so the verdict is left to the generated parser's own
+// trace on the witness.
+func (c *Ctx) c07RunOptAccepted(gs []*gast.Grammar, ws []*c07w) {
+	if len(gs) == 0 {
+		return
+	}
+	bt := c.BuildUnits(gs, [][]string{{"-optimize-grammar"}}, false, nil)
+	defer bt.Close()
+	var cases []*mon.Case
+	for k, u := range bt.Units {
+		if !u.OK {
+			c.CovSet("witness_unit_not_built", shortFail(u.Fail))
+			continue
+		}
+		cases = append(cases, &mon.Case{ID: fmt.Sprintf("optdbg/%d", k), Pkg: u.Pkg, Input: ws[k].in, Debug: true, MaxExpr: 3000, MaxEvents: 10})
+	}
+	res := bt.Run(cases, batch.RunOpts{})
+	for k, u := range bt.Units {
+		if !u.OK {
+			continue
+		}
+		c.Eval(1)
+		c.CovAdd("accepted_under_optimize_grammar_with_model_witness", 1)
+		r := res[fmt.Sprintf("optdbg/%d", k)]
+		if r == nil || r.Dbg == nil {
+			c.Inconclusive("no_debug_result")
+			continue
+		}
+		if r.Dbg.Reentry == "" {
+			continue // the optimizer removed the cycle (or the witness does not carry over): nothing observed
+		}
+		g := gs[k]
+		c.Report(&Violation{Class: "C07/silently-accepted-optimized", Summary: fmt.Sprintf("pigeon -optimize-grammar accepts a left-recursive grammar without -support-left-recursion: on input %q the generated parser re-enters %s while it is already being evaluated there (its own Debug trace); grammar %q",
+			ws[k].in, strings.TrimPrefix(r.Dbg.Reentry, "parseRule "), gast.Short(g)),
+			Grammar: u.Text, Flags: u.Flags, Input: ws[k].in, Sig: c07Sig(g, "accepted"), Extra: map[string]any{"model_reentry": ws[k].reentry, "trace_reentry": r.Dbg.Reentry}})
 	}
 }
 
